@@ -208,6 +208,39 @@ func runWatchdog(what string) (stop func()) {
 	t := time.AfterFunc(limit, func() {
 		buf := make([]byte, 4<<20)
 		n := runtime.Stack(buf, true)
+		busy := func(dump string) map[string]string {
+			out := map[string]string{}
+			for _, g := range strings.Split(dump, "\n\n") {
+				head := strings.SplitN(g, "\n", 2)[0]
+				if !(strings.Contains(head, "[running") || strings.Contains(head, "[runnable")) || !strings.Contains(head, "synctest bubble") {
+					continue
+				}
+				if strings.Contains(g, "runWatchdog") || !strings.Contains(g, "github.com/thushan/olla/internal/a") {
+					continue // the watchdog itself, or no frame of the system under test (internal/adapter, internal/app)
+				}
+				out[strings.Fields(head)[1]] = g
+			}
+			return out
+		}
+		first := busy(string(buf[:n]))
+		mutexBlocked := false
+		for _, g := range strings.Split(string(buf[:n]), "\n\n") {
+			if strings.Contains(g, "sync.Mutex.Lock, synctest bubble") || strings.Contains(g, "sync.RWMutex") && strings.Contains(g, "synctest bubble") {
+				mutexBlocked = true
+			}
+		}
+		if !mutexBlocked && len(first) > 0 {
+			// nobody waits for a lock, yet simulated time stands still: is a goroutine of the system under
+			// test burning CPU without ever blocking? look again a little later
+			time.Sleep(8 * time.Second)
+			n2 := runtime.Stack(buf, true)
+			for id, g := range busy(string(buf[:n2])) {
+				if _, again := first[id]; again {
+					fmt.Fprintf(os.Stderr, "\nSPINNING: run %s made no end in %s of wall time and simulated time cannot advance: goroutine %s of the system under test is runnable without ever blocking:\n%s\n\n", what, limit, id, g)
+					os.Exit(4)
+				}
+			}
+		}
 		fmt.Fprintf(os.Stderr, "\nWEDGED: run %s made no end in %s of wall time; goroutines blocked on a mutex inside the bubble:\n", what, limit)
 		for _, g := range strings.Split(string(buf[:n]), "\n\n") {
 			if strings.Contains(g, "sync.Mutex.Lock, synctest bubble") || strings.Contains(g, "sync.RWMutex") && strings.Contains(g, "synctest bubble") {
@@ -267,7 +300,9 @@ func TestSim(t *testing.T) {
 			fmt.Fprintln(os.Stderr, "HARNESS:", err)
 			os.Exit(2)
 		}
+		stopRWD := runWatchdog("replay " + rp)
 		r, vs := runOne(t, prop, rf.Plan, true)
+		stopRWD()
 		line := RunLine{Seed: rf.Plan.Seed, Sub: rf.Plan.Sub, Violations: vs, Err: r.Err, End: r.EndReason}
 		if r.Sim != nil {
 			line.LogHash = fmt.Sprintf("%016x", r.Sim.LogHash())
